@@ -4,9 +4,9 @@ from vc.contract import verify_cfg
 from contracts import registry
 def main(names, D=None):
     for nm in names:
-        con = registry.ALL[nm]
+        con = registry.ALL[nm]; import os; REPO = os.environ.get('ALGOPY_REPO', '/repo')
         for cfg in con.cfgs:
-            t = time.time(); r = verify_cfg(con, cfg, registry.ALL, '/repo', D=D)
+            t = time.time(); r = verify_cfg(con, cfg, registry.ALL, REPO, D=D)
             bad = [(o['name'], o['verdict'], o['seconds'], o['why']) for o in r.obligations if o['verdict'] != 'unsat']
             print('%-14s %-10s obl=%2d  %s  %.1fs %s' % (nm, cfg, len(r.obligations), 'UNDECIDED: ' + r.undecided if r.undecided else ('ok' if not bad else 'FAILED'), time.time() - t, bad if bad else ''))
 if __name__ == '__main__':
